@@ -22,9 +22,9 @@ def rand_name(rng, used):
 
 
 class TreeGen:
-    def __init__(self, rng, illformed=0.15, emit=True, pulls=True, fail=0.1):
+    def __init__(self, rng, illformed=0.15, emit=True, pulls=True, fail=0.1, typed=0.0):
         self.r = rng; self.next_id = 1; self.scripts = {}; self.illformed = illformed
-        self.emit = emit; self.pulls = pulls; self.fail = fail
+        self.emit = emit; self.pulls = pulls; self.fail = fail; self.typed = typed
 
     def item(self):
         r = self.r
@@ -47,7 +47,9 @@ class TreeGen:
         r = self.r; ops = []
         if self.pulls:
             for _ in range(r.choice([0, 0, 1, 1, 2, 3, 4])):
-                ops.append(r.choice(["r", "r", "o", "o", "R", "O"]))
+                o = r.choice(["r", "r", "o", "o", "R", "O"])
+                if r.random() < self.typed: o += ":" + r.choice(list(PTY))
+                ops.append(o)
         if query and self.emit:
             nh = r.choice([0, 0, 0, 1, 2])
             for _ in range(nh): ops.append("h" + hexs(r.choice([b"VOLT", b"SENS", b"RANG", b"A"])))
@@ -218,13 +220,22 @@ def coq_item(it):
     raise ValueError(it)
 
 
+PTY = {"i8": "PInt I8", "u8": "PInt U8", "i16": "PInt I16", "u16": "PInt U16", "i32": "PInt I32", "u32": "PInt U32", "i64": "PInt I64",
+       "u64": "PInt U64", "isize": "PInt Isize", "usize": "PInt Usize", "f32": "PFloat F32", "f64": "PFloat F64", "bool": "PBool",
+       "bytes": "PBytes BBytes", "str": "PBytes BStr", "arb": "PBytes BArb", "chr": "PBytes BChr", "expr": "PBytes BExpr"}
+
+
 def coq_ops(ops):
     t = []
     for o in ops:
         k, v = o[0], o[1:]
         if k in "roRO":
-            if v: raise ValueError("typed pulls are implementation-only")
-            t.append("SPull %s %s" % ("true" if k in "rR" else "false", "true" if k in "RO" else "false"))
+            rq, sw = ("true" if k in "rR" else "false", "true" if k in "RO" else "false")
+            if v:
+                if v[1:] not in PTY: raise ValueError("typed pull %s is implementation-only" % v)
+                t.append("SPullT %s %s (%s)" % (rq, sw, PTY[v[1:]]))
+            else:
+                t.append("SPull %s %s" % (rq, sw))
         elif k == "h": t.append("SHdr %s" % coq_bytes(unhex(v)))
         elif k == "d": t.append("SData %s" % coq_item(v))
         elif k == "F": t.append("SFail %s" % coq_error(v))
